@@ -59,15 +59,6 @@ Definition absent_okb (m : key -> mval) (d : desc) : bool :=
   forallb (fun k => match m k with MP (Some []) => true | _ => false end) (parts d).
 Definition absent_normal (m : key -> mval) : Prop := forall d, In d L -> absent_okb m d = true.
 
-(* fixed-size pointers (display_settings) present in a stay present in b: a vanished fixed-size pointer is NOT
-   restored faithfully by the C reader (realloc(ptr,0) leaves a non-NULL zero-size block) - outside this theorem *)
-Definition fixed_keptb (a b : key -> mval) (d : desc) : bool :=
-  match d_dt d with
-  | DPointerFixed => match a (d_member d, O), b (d_member d, O) with MP (Some _), MP None => false | _, _ => true end
-  | _ => true
-  end.
-Definition fixed_kept (a b : key -> mval) : Prop := forall d, In d L -> fixed_keptb a b d = true.
-
 Lemma id_inj : forall d d', In d L -> In d' L -> d_id d = d_id d' -> d = d'.
 Proof.
   intros d d' H H' E. pose proof (find_row legacy fpid tbl Htbl d H) as A. pose proof (find_row legacy fpid tbl Htbl d' H') as B.
@@ -318,26 +309,28 @@ Qed.
 
 Notation WD a b := (flat_map (writes legacy tbl) (delta (mview a) (mview b))).
 
-Lemma WD_values : forall a b k v, mem_wf psz tbl a -> mem_wf psz tbl b -> absent_normal b -> fixed_kept a b ->
+Lemma WD_values : forall a b k v, mem_wf psz tbl a -> mem_wf psz tbl b -> absent_normal b ->
   In (k, v) (WD a b) -> v = b k.
 Proof.
-  intros a b k v Hwa Hwb Hab Hfk H. apply in_flat_map in H. destruct H as [f [Hf Hkv]].
+  intros a b k v Hwa Hwb Hab H. apply in_flat_map in H. destruct H as [f [Hf Hkv]].
   apply delta_elems in Hf. destruct Hf as [Hf|(d & fa & Hd & Ea & Eb & ->)].
   - apply in_flat_map in Hf. destruct Hf as [d [Hd Hf]]. eapply (writes_are_values psz legacy fpid tbl Htbl); eauto.
   - destruct (is_arr (d_dt d)) eqn:Harr; [eapply vanished_writes_values; eauto|].
-    exfalso. pose proof (Hwb d Hd) as Hb. pose proof (Hwa d Hd) as Ha. pose proof (Hfk d Hd) as Hk.
-    unfold wdesc in Ea, Eb. unfold mem_okb in Ha, Hb. unfold fixed_keptb in Hk.
+    (* vanished marker of a non-array row: only a fixed-size pointer can vanish; realloc(ptr,0) = NULL = b's value *)
+    pose proof (Hwb d Hd) as Hb. pose proof (Hwa d Hd) as Ha.
+    unfold writes in Hkv. cbn [f_type f_payload] in Hkv. rewrite (find_row legacy fpid tbl Htbl d Hd) in Hkv.
+    unfold wdesc in Ea, Eb. unfold mem_okb in Ha, Hb.
     destruct (d_dt d); cbn [is_arr simple_size] in *; try discriminate Harr; try discriminate Ea; try discriminate Eb;
       try (destruct (b (d_member d, O)); discriminate).
-    destruct (a (d_member d, O)) as [|[|]]; try discriminate Ea.
-    destruct (b (d_member d, O)) as [|[|]]; try discriminate Eb; try discriminate Hb; discriminate Hk.
+    destruct (b (d_member d, O)) as [|[|]] eqn:Ebv; try discriminate Eb; try discriminate Hb.
+    destruct Hkv as [Hkv|[]]. inversion Hkv; subst. rewrite Ebv. reflexivity.
 Qed.
 
 (* ---------- the theorem *)
-Theorem delta_roundtrip : forall a b, mem_wf psz tbl a -> mem_wf psz tbl b -> absent_normal b -> fixed_kept a b ->
+Theorem delta_roundtrip : forall a b, mem_wf psz tbl a -> mem_wf psz tbl b -> absent_normal b ->
   flat_map (wdesc psz (rfields legacy tbl a (delta (mview a) (mview b)))) L = flat_map (wdesc psz b) L.
 Proof.
-  intros a b Hwa Hwb Hab Hfk. unfold rfields. set (fin := apply_writes a (WD a b)).
+  intros a b Hwa Hwb Hab. unfold rfields. set (fin := apply_writes a (WD a b)).
   assert (Hfv : forall k, fin k = b k \/ (fin k = a k /\ ~ In k (map fst (WD a b)))).
   { intros k. destruct (in_dec key_dec k (map fst (WD a b))) as [Hi|Hn].
     - left. apply apply_writes_agree; auto. intros k' v' Hin. apply (WD_values a b k' v'); auto.
@@ -345,7 +338,7 @@ Proof.
   apply flat_map_ext_in'. intros d Hd.
   destruct (wdesc_cases b d) as [Eb|[fb Eb]].
   - (* b does not write the row *)
-    rewrite Eb. pose proof (Hwb d Hd) as Hb. pose proof (Hwa d Hd) as Ha. pose proof (Hfk d Hd) as Hk.
+    rewrite Eb. pose proof (Hwb d Hd) as Hb. pose proof (Hwa d Hd) as Ha.
     destruct (is_arr (d_dt d)) eqn:Harr.
     + assert (Hszb : count_of b d * d_esize d = 0).
       { unfold wdesc in Eb. destruct (d_dt d); try discriminate Harr;
@@ -363,12 +356,26 @@ Proof.
             apply in_map_iff in Hc. destruct Hc as [[k' v'] [Ek Hc]]. cbn [fst] in Ek. subst k'.
             apply in_map_iff. exists ((d_count d, O), v'). split; auto. apply in_flat_map. eauto. }
       unfold wdesc. destruct (d_dt d); try discriminate Harr; rewrite Hszf; reflexivity.
-    + unfold wdesc in *. unfold mem_okb in Ha, Hb. unfold fixed_keptb in Hk.
-      destruct (d_dt d) eqn:Edt; cbn [is_arr simple_size] in *; try discriminate Harr; try reflexivity;
-        try (destruct (b (d_member d, O)); discriminate).
-      destruct (b (d_member d, O)) as [|[|]] eqn:Ebv; try discriminate Hb; try discriminate Eb.
-      destruct (Hfv (d_member d, O)) as [E|[E _]]; rewrite E; [rewrite Ebv; reflexivity|].
-      destruct (a (d_member d, O)) as [|[|]]; try discriminate Ha; try discriminate Hk; reflexivity.
+    + destruct (wdesc_cases a d) as [Ea|[fa Ea]].
+      * (* neither writes the row: the member keeps a's or gets b's value, both not a non-NULL pointer *)
+        unfold wdesc in *. unfold mem_okb in Ha, Hb.
+        destruct (d_dt d) eqn:Edt; cbn [is_arr simple_size] in *; try discriminate Harr; try reflexivity;
+          try (destruct (b (d_member d, O)); discriminate).
+        destruct (b (d_member d, O)) as [|[|]] eqn:Ebv; try discriminate Hb; try discriminate Eb.
+        destruct (Hfv (d_member d, O)) as [E|[E _]]; rewrite E; [rewrite Ebv; reflexivity|].
+        destruct (a (d_member d, O)) as [|[|]]; try discriminate Ha; try discriminate Ea; reflexivity.
+      * (* a writes it, b does not: the vanished marker is in the delta and sets the member to b's value *)
+        pose proof (delta_vanished a b d fa Hd Ea Eb) as Hv.
+        assert (Hrk : forall k, In k (rkeys d) -> fin k = b k).
+        { intros k Hk. destruct (Hfv k) as [E|[_ Hn]]; auto. exfalso. apply Hn.
+          assert (Hc : In k (map fst (writes legacy tbl (mkfield (d_id d) [])))).
+          { unfold writes. cbn [f_type f_payload]. rewrite (find_row legacy fpid tbl Htbl d Hd). unfold rkeys in Hk.
+            unfold wdesc in Ea. destruct (d_dt d); cbn [is_arr is_simple dtype_eqb orb simple_size] in *;
+              try discriminate Harr; try discriminate Ea; try contradiction;
+              try (destruct Hk as [<-|[]]; left; reflexivity). }
+          apply in_map_iff in Hc. destruct Hc as [[k' v'] [Ek Hc]]. cbn [fst] in Ek. subst k'.
+          apply in_map_iff. exists (k, v'). split; auto. apply in_flat_map. eauto. }
+        rewrite <- Eb. apply wdesc_ext. exact Hrk.
   - (* b writes fb *)
     rewrite Eb. rewrite <- Eb. apply wdesc_ext. intros k Hk.
     destruct (Hfv k) as [E|[E Hn]]; auto. rewrite E.
